@@ -4,7 +4,7 @@ CONSTANTS
   OrderlyMode = "reconnect"
   Params <- ParamsR
   MaxAtt = 6
-  StepBehs = {"refuse", "close_abrupt", "healthy"}
+  StepBehs = {"refuse", "close_abrupt", "drop_unserved", "healthy"}
   CloseDs = {600}
   MaxStall = 0
   MaxMute = 0
